@@ -182,6 +182,9 @@ class DictMutator(Contract):
         return res
 
     def post(self, cx, I, ov, info, kind, payload, st):
+        return self.tag(self._post(cx, I, ov, info, kind, payload, st))
+
+    def _post(self, cx, I, ov, info, kind, payload, st):
         M0 = info["M"]
         M1 = st.heap[info["self_ref"].oid].payload
         evs = st.ghost["events"]
@@ -215,6 +218,21 @@ class DictMutator(Contract):
             out.append(("raise:same-exception-as-dict-or-validator", z3.Or(*alts) if alts else z3.BoolVal(False)))
             out.append(("raise:contents-unchanged", mapeq(M1, M0)))
             out.append(("raise:no-event", z3.BoolVal(len(evs) == 0)))
+        return out
+
+    def tag(self, clauses):
+        """C05-C07 own every clause; C04 the 'only validated items enter' clauses; C19 (and C04) the failure-atomicity ones"""
+        out = []
+        own = tuple(p for p in self.properties if p in ("C05", "C06", "C07"))
+        for cl in clauses:
+            name = cl[0]
+            if name.startswith("raise:"):
+                props = own + ("C04", "C19")
+            elif "validated" in name:
+                props = own + ("C04",)
+            else:
+                props = own
+            out.append((cl[0], cl[1], cl[2] if len(cl) > 2 else {}, props))
         return out
 
     def same_result(self, cx, info, payload, st, rp, rst):
